@@ -2091,7 +2091,7 @@ package apd
 //@   props C04
 //@   pure
 //@ func (*Decimal).setString
-//@   props C04 C06
+//@   props C04 C06 C01 C07
 //@   requires writable(d) && c != nil
 //@   assigns d
 //@   ensures [wf] ret1 == nil ==> inv(d)
@@ -2103,7 +2103,7 @@ package apd
 //@   assigns d
 //@   ensures [wf] ret2 == nil ==> inv(d) && ret0 == d
 //@ func (*Context).SetString
-//@   props C04 C06 C07 C03
+//@   props C04 C06 C07 C03 C01
 //@   exported
 //@   requires writable(d)
 //@   assigns d
@@ -2112,11 +2112,11 @@ package apd
 //@   ensures [trap] ret2 == nil ==> !trapped(c, ret1)
 //@   ensures [closed] closed(ret1)
 //@ func (*Context).NewFromString
-//@   props C04
+//@   props C04 C01 C07
 //@   exported
 //@   ensures [wf] ret2 == nil ==> ret0 != nil && inv(ret0)
 //@ func NewFromString
-//@   props C04
+//@   props C04 C01 C07
 //@   exported
 //@   ensures [wf] ret2 == nil ==> ret0 != nil && inv(ret0)
 // ---------------------------------------------------------------- formatting: no panic (C04); the text itself is C13/C14
